@@ -174,7 +174,7 @@ def replay(opt: str, histories: list[list], refs: dict) -> list[dict]:
                 try:
                     with _quiet(), warnings.catch_warnings(), np.errstate(all="ignore"):
                         warnings.simplefilter("ignore")
-                        res3 = X(c1).optimize(T.build_task(TASKS[3]))
+                        res3 = X(c1).optimize(T.build_task(TASKS[3], cls=T.DecodingTask))
                     e3["raised"], e3["digest"] = "", did(digest(res3))
                 except Exception as ex:
                     e3["raised"], e3["digest"] = type(ex).__name__, 0
@@ -281,7 +281,7 @@ def reference_main():
                 try:
                     with _quiet(), warnings.catch_warnings():
                         warnings.simplefilter("ignore")
-                        res = X(C(**cd)).optimize(T.build_task(td))
+                        res = X(C(**cd)).optimize(T.build_task(td, cls=T.DecodingTask if t == 3 else None))
                     refs[f"{opt}/{k}/{t}"] = {"raised": "", "digest": digest(res)}
                 except Exception as ex:
                     from .corpus import crash_site
